@@ -341,6 +341,17 @@ def h_gbt(kind):
     prove("pix_bbox", And(pb.left == x0, pb.right == x1, pb.bottom == y0, pb.top == y1))
     prove("crs_kept", g.crs is None)
     if kind == "regular":
+        # chunks of the tiled geobox agree with the tiling; crop[...] = tiled geobox of the cropped base
+        r0, r1 = Int("crop_r0"), Int("crop_r1")
+        assume(And(0 <= r0, r0 <= r, r < r1, r1 <= cy))
+        gcrop = gbt.crop[r0:r1, 0:cx]
+        prove("crop_tile_count", And(gcrop.shape.y == r1 - r0, gcrop.shape.x == cx))
+        gct = gcrop[r - r0, q]
+        cwx, cwy = gct.pix2wld(i, j)
+        prove("crop_reindexes_same_tiles", And(cwx == wx, cwy == wy, gct.shape.y == g.shape.y, gct.shape.x == g.shape.x))
+        bwx, bwy = gcrop.base.pix2wld(i, j)
+        owx, owy = base.pix2wld(i, j + r0 * ny)
+        prove("crop_base_is_cropped_geobox", And(bwx == owx, bwy == owy))
         # clip to two selected tiles: cropped tiling indexes the same geoboxes
         r2, q2 = Int("r2"), Int("q2")
         assume(And(0 <= r2, r2 < cy, 0 <= q2, q2 < cx))
